@@ -80,7 +80,9 @@ Definition bind (G : tenv) (v : nat) (t : ty) : tenv :=
 
 (* ---------- the signature table ---------- *)
 Inductive argreq := AKind (k : kind) | ARef (allow_param : bool).
-Record msig := mk_msig { m_res : ty; m_arg : argreq; m_min : nat; m_max : option nat }.
+(* m_checked: how many leading arguments are inspected (None = all): the table's `binary`
+   name tuple has two entries and zip() stops there *)
+Record msig := mk_msig { m_res : ty; m_arg : argreq; m_checked : option nat; m_min : nat; m_max : option nat }.
 
 Inductive position := PStart | PSize | PArrayLen | PCond | PRequires | PEnumValue | PAny.
 Definition position_eqb (a b : position) : bool :=
@@ -120,16 +122,16 @@ Fixpoint lookup_pos (l : list (position * kind)) (p : position) : option kind :=
   | (q, k) :: r => if position_eqb q p then Some k else lookup_pos r p
   end.
 
-Definition sig_int2 := mk_msig TInt (AKind KInt) 2 (Some 2).
-Definition sig_bool2 := mk_msig TBool (AKind KBool) 2 (Some 2).
-Definition sig_int1 := mk_msig TInt (AKind KInt) 1 (Some 1).
+Definition sig_int2 := mk_msig TInt (AKind KInt) (Some 2) 2 (Some 2).
+Definition sig_bool2 := mk_msig TBool (AKind KBool) (Some 2) 2 (Some 2).
+Definition sig_int1 := mk_msig TInt (AKind KInt) None 1 (Some 1).
 
 (* the table of the CURRENT implementation (what the probes yield on the unchanged tree) *)
 Definition impl_table : sig_table := mk_sig
   [ (FAdd, sig_int2); (FSub, sig_int2); (FMul, sig_int2);
     (FAnd, sig_bool2); (FOr, sig_bool2);
-    (FMax, mk_msig TInt (AKind KInt) 1 None);
-    (FPresent, mk_msig TBool (ARef true) 1 (Some 1));
+    (FMax, mk_msig TInt (AKind KInt) None 1 None);
+    (FPresent, mk_msig TBool (ARef true) None 1 (Some 1));
     (FUpper, sig_int1); (FLower, sig_int1) ]
   [KInt; KBool; KEnum]
   [KInt; KEnum]
@@ -145,8 +147,8 @@ Definition impl_table : sig_table := mk_sig
 Definition doc_table : sig_table := mk_sig
   [ (FAdd, sig_int2); (FSub, sig_int2); (FMul, sig_int2);
     (FAnd, sig_bool2); (FOr, sig_bool2);
-    (FMax, mk_msig TInt (AKind KInt) 1 None);
-    (FPresent, mk_msig TBool (ARef false) 1 (Some 1));
+    (FMax, mk_msig TInt (AKind KInt) None 1 None);
+    (FPresent, mk_msig TBool (ARef false) None 1 (Some 1));
     (FUpper, sig_int1); (FLower, sig_int1) ]
   [KInt; KBool; KEnum]
   [KInt]
@@ -184,6 +186,9 @@ Fixpoint first_bad_arg (r : argreq) (shs : list shape) (tys : list ty) (i : nat)
   | _, _ => None
   end.
 
+Definition limit {A} (n : option nat) (l : list A) : list A :=
+  match n with Some k => firstn k l | None => l end.
+
 (* one operator applied to arguments of known types and shapes *)
 Definition op_check (T : sig_table) (f : fn) (shs : list shape) (tys : list ty) : tres :=
   if is_cmp f then
@@ -209,7 +214,7 @@ Definition op_check (T : sig_table) (f : fn) (shs : list shape) (tys : list ty) 
     match lookup_mono (mono T) f with
     | None => TErr []
     | Some s =>
-        match first_bad_arg (m_arg s) shs tys 0 with
+        match first_bad_arg (m_arg s) (limit (m_checked s) shs) (limit (m_checked s) tys) 0 with
         | Some i => TErr [i]
         | None =>
             if Nat.ltb (length tys) (m_min s) then TErr []
